@@ -68,6 +68,20 @@ func (self *Analyzer) functionSignature(node pAst.FunctionDefinition) {
 		)
 	}
 
+	// A function may not take the name of an import of its module either.
+	if imported, exists := self.currentModule.Scopes[0].Values[node.Ident.Ident()]; exists && imported.Origin == ImportedVariableOriginKind {
+		self.error(
+			fmt.Sprintf("Duplicate definition of '%s': the name is already used by an import", node.Ident.Ident()),
+			[]string{"Consider changing the name of this function"},
+			node.Ident.Span(),
+		)
+		self.hint(
+			fmt.Sprintf("'%s' imported here", node.Ident.Ident()),
+			nil,
+			imported.Span,
+		)
+	}
+
 	self.currentModule.addFunc(newFunction(
 		node.Ident.Span(),
 		newNormalFunction(node.Ident),
